@@ -21,6 +21,17 @@ LEVEL = "exploration"
 SHARDS = {"quick": 8, "thorough": 16}
 BUDGET = {"quick": 25.0, "thorough": 420.0}
 REQUIRE = {
+    "sender_lifetime_refcount_only_checks": 2000,
+    "sender_lifetime_refcount_only_checks:live-weak-args-connection": 500,
+    "sender_lifetime_refcount_only_checks:only-removed-weak-args-connections": 200,
+    "sender_lifetime_refcount_only_checks:live-connections-without-weak-args": 200,
+    "sender_lifetime_refcount_only_checks:only-removed-connections": 50,
+    "sender_lifetime_conn_shape:w": 100,
+    "sender_lifetime_conn_shape:ww": 100,
+    "sender_lifetime_conn_shape:wu": 100,
+    "sender_lifetime_conn_shape:wud": 100,
+    "weak_arg_refcount_only_checks": 300,
+    "lifetime_controls_ok": 7,
     "histories": 6000,
     "model:emit": 15000,
     "model:emit_nested": 2000,
@@ -62,7 +73,12 @@ RULE = (
     "(quick: n=3 with <=1 op, n<=2 with <=2 ops; thorough adds n=4, its 2-op prefixes as far as 75% of the budget allows -- see "
     "core_complete_in_budget) + final emit; random histories of 5..40 ops over 3 senders x 2 names incl. real "
     "widgets (Button click, CheckBox/Edit change+postchange, SimpleListWalker/SimpleFocusListWalker modified, walker inside a "
-    "ListBox); distinct = distinct (header, ops) descriptors; non-trivial = at least one emit executed"
+    "ListBox); distinct = distinct (header, ops) descriptors; non-trivial = at least one emit executed; PLUS refcount-only lifetime "
+    "cases (cyclic gc disabled, cycle-free senders {plain, falsy, MetaSignals subclass, int-named} and callbacks {function, object, "
+    "bound method} that never refer to the sender): every connection shape {none,u,uu,d,ud,w,ww,www,wu,wwuu,wd,wud} x {connected, "
+    "disconnected by key/args, emitted, emitted then disconnected, two signals, duplicate, one of two disconnected, bogus "
+    "disconnects, weak arg dead (before/after emit, one of two), mixed} x API flavour, then random step lists; the weakref to the "
+    "sender / weak argument must be dead immediately after the last outside reference is dropped"
 )
 ASSUMES = [
     "disconnect_signal(by arguments) on several identical connections removes the earliest one (one connection per call)",
@@ -70,7 +86,8 @@ ASSUMES = [
     "a connection whose weak argument dies during an emit must not be called after the death; calls before it are fine",
     "emit result is compared by truthiness; handler return values used: None, False, 0, '', True, 1, 'x', (0,)",
     "for widget triggers the emitted arguments follow the widget documentation: (widget, new value) for 'change', (widget, old value) for 'postchange', (widget,) for 'click', () for 'modified'",
-    "liveness is judged after dropping the harness's own references and one gc.collect(); handlers never hold a strong reference to a sender or weak argument other than ones the history itself passes as user_args (never done)",
+    "refcount-only lifetime part: a sender class is used only if a never-connected instance of it dies by reference counting alone (control run first); whether a dead weak argument's connection also releases its callback is recorded as an observation (dead_weak_connection_callback_released/retained), not judged",
+    "history part: liveness is judged after dropping the harness's own references and one gc.collect(); handlers never hold a strong reference to a sender or weak argument other than ones the history itself passes as user_args (never done)",
     "weak-argument objects use identity equality; senders accept attribute assignment (no __slots__)",
 ]
 
@@ -903,8 +920,336 @@ def setup():
             reach.watch(types.FunctionType(c, {"__name__": "urwid.signals"}, "weakref_callback", None, tuple(types.CellType() for _ in c.co_freevars)))
 
 
+# ------------------------------------------------------------------ lifetime judged by reference counting only
+#
+# The history workload above judges liveness after gc.collect(), which also frees a sender that the signal
+# machinery has tied into a reference cycle.  "Never keeps a sender / weak argument alive" is judged here the
+# strict way: cyclic gc disabled, every test object cycle-free (callbacks never refer to the sender), and the
+# weakref must be dead immediately after the last outside reference is dropped.
+
+LT_SHAPES = {
+    # name: (number of weak args, user_args, deprecated user_arg)
+    "none": (0, [], None),
+    "u": (0, ["u"], None),
+    "uu": (0, ["u", 3], None),
+    "d": (0, [], "dep"),
+    "ud": (0, ["u"], "dep"),
+    "w": (1, [], None),
+    "ww": (2, [], None),
+    "www": (3, [], None),
+    "wu": (1, ["u"], None),
+    "wwuu": (2, ["u", 3], None),
+    "wd": (1, [], "dep"),
+    "wud": (1, ["u"], "dep"),
+}
+LT_KINDS = {"module": ["plain", "falsy", "metasub", "plain2"], "fresh": ["plain", "falsy", "plain2"]}
+LT_STYLES = ["func", "obj", "meth"]
+
+
+class _CB:
+    """callback object that refers to nothing but its own counter"""
+
+    def __init__(self):
+        self.n = 0
+
+    def __call__(self, *a):
+        self.n += 1
+
+    def meth(self, *a):
+        self.n += 1
+        return 1
+
+
+def _mk_cb(style):
+    c = _CB()
+    if style == "obj":
+        return c, (lambda: c)
+    if style == "meth":
+        return c, (lambda: c.meth)  # fresh bound method on every use
+
+    def f(*a, _c=c):
+        _c.n += 1
+
+    return c, (lambda: f)
+
+
+def lt_hist_cases():
+    """enumerated step lists: every connection shape x every small history around it"""
+    for shape in LT_SHAPES:
+        nw = LT_SHAPES[shape][0]
+        for si, style in enumerate(LT_STYLES):
+            c = ["connect", "a", shape, style]
+            yield "connected", [c]
+            yield "disconnected_key", [c, ["disc_key", 0]]
+            yield "disconnected_args", [c, ["disc_args", 0]]
+            yield "emitted", [c, ["emit", "a"], ["emit", "a"]]
+            yield "emitted_then_disconnected", [c, ["emit", "a"], ["disc_key", 0], ["emit", "a"]]
+            yield "two_signals", [c, ["connect", 1, shape, LT_STYLES[(si + 1) % 3]], ["emit", 1], ["emit", "a"]]
+            yield "duplicate", [c, ["reconnect", 0], ["emit", "a"]]
+            yield "one_of_two_disconnected", [c, ["connect", "a", shape, style], ["disc_args", 0], ["emit", "a"]]
+            yield "bogus_disconnects", [c, ["disc_bogus", "a"], ["emit", "a"]]
+            if nw:
+                yield "weak_dead", [c, ["killweak", 0], ["emit", "a"]]
+                yield "weak_dead_after_emit", [c, ["emit", "a"], ["killweak", 0]]
+                yield "weak_dead_one_of_two", [c, ["connect", "a", "w", style], ["killweak", 0], ["emit", "a"]]
+                yield "mixed_with_plain", [["connect", "a", "none", style], c, ["connect", 1, "u", style], ["emit", "a"]]
+
+
+def lt_rand_steps(rng):
+    steps = []
+    for _ in range(rng.randint(1, 10)):
+        r = rng.random()
+        if r < 0.45 or not steps:
+            steps.append(["connect", rng.choice(["a", 1]), rng.choice(list(LT_SHAPES)), rng.choice(LT_STYLES)])
+        elif r < 0.55:
+            steps.append(["disc_key", rng.randrange(8)])
+        elif r < 0.65:
+            steps.append(["disc_args", rng.randrange(8)])
+        elif r < 0.70:
+            steps.append(["reconnect", rng.randrange(8)])
+        elif r < 0.85:
+            steps.append(["emit", rng.choice(["a", 1])])
+        elif r < 0.95:
+            steps.append(["killweak", rng.randrange(8)])
+        else:
+            steps.append(["disc_bogus", rng.choice(["a", 1])])
+    return steps
+
+
+def lifetime_case(desc):
+    """desc = {"api", "kind", "steps"}; returns (findings, counts).  Runs with the cyclic gc disabled."""
+    import urwid
+    from urwid import signals as S
+
+    findings = []
+    counts = {}
+
+    def cnt(k, n=1):
+        counts[k] = counts.get(k, 0) + n
+
+    api, kind = desc["api"], desc["kind"]
+    cls, names = classes()[kind]
+    # both flavours register signal names per class; for this part every sender class uses the names "a" and 1
+    if api == "fresh":
+        sg = S.Signals()
+        sg.register(cls, ["a", 1])
+        f_connect, f_disc, f_key, f_emit = sg.connect, sg.disconnect, sg.disconnect_by_key, sg.emit
+    else:
+        sg = None
+        f_connect, f_disc, f_key, f_emit = urwid.connect_signal, urwid.disconnect_signal, urwid.disconnect_signal_by_key, urwid.emit_signal
+    was_enabled = gc.isenabled()
+    gc.disable()
+    try:
+        if sg is None:
+            # module-level registry: add the extra name for this case only, restore afterwards
+            reg = S._signals._supported
+            saved = reg.get(cls)
+            reg[cls] = ["a", 1]
+        sender = cls()
+        had_weak = False
+        conns = []  # dicts: name, shape, cb counter, cb getter, key, weaks (list or None when killed), live
+
+        def args_of(c):
+            nw, ua, d = LT_SHAPES[c["shape"]]
+            kw = {}
+            if nw:
+                kw["weak_args"] = list(c["weaks"])
+            if ua:
+                kw["user_args"] = list(ua)
+            return (() if d is None else (d,)), kw
+
+        for st in desc["steps"]:
+            k = st[0]
+            cnt("lt_op:" + k)
+            c = o = counter = getter = None  # no stale references from the previous step
+            if k == "connect":
+                _, name, shape, style = st
+                counter, getter = _mk_cb(style)
+                c = {"name": name, "shape": shape, "counter": counter, "get": getter, "weaks": [WeakObj(False) for _ in range(LT_SHAPES[shape][0])], "live": True}
+                pos, kw = args_of(c)
+                c["key"] = f_connect(sender, name, getter(), *pos, **kw)
+                del pos, kw  # kw holds the weak arguments strongly
+                conns.append(c)
+            elif k == "reconnect":
+                if not conns:
+                    continue
+                o = conns[st[1] % len(conns)]
+                if o["weaks"] is None:
+                    continue
+                c = dict(o, live=True)
+                pos, kw = args_of(c)
+                c["key"] = f_connect(sender, c["name"], c["get"](), *pos, **kw)
+                del pos, kw
+                conns.append(c)
+            elif k == "disc_key":
+                if not conns:
+                    continue
+                c = conns[st[1] % len(conns)]
+                f_key(sender, c["name"], c["key"])
+                c["live"] = False
+            elif k == "disc_args":
+                if not conns:
+                    continue
+                c = conns[st[1] % len(conns)]
+                if c["weaks"] is None:
+                    continue
+                pos, kw = args_of(c)
+                f_disc(sender, c["name"], c["get"](), *pos, **kw)
+                del pos, kw
+                # the earliest live identical connection goes
+                for o in conns:
+                    if o["live"] and o["counter"] is c["counter"] and o["name"] == c["name"] and o["weaks"] is c["weaks"]:
+                        o["live"] = False
+                        break
+            elif k == "disc_bogus":
+                f_disc(sender, st[1], _CB())
+                f_key(sender, st[1], S.Key())
+                f_disc(sender, "never-connected-name", _CB(), weak_args=[WeakObj(False)])
+            elif k == "emit":
+                before = [c["counter"].n for c in conns]
+                f_emit(sender, st[1], "e")
+                # per callback object: one call per live connection of it on this signal
+                seen = set()
+                for i, c in enumerate(conns):
+                    if id(c["counter"]) in seen:
+                        continue
+                    seen.add(id(c["counter"]))
+                    want = sum(1 for o in conns if o["counter"] is c["counter"] and o["live"] and o["name"] == st[1])
+                    got = c["counter"].n - before[i]
+                    cnt("lt_emit_count_checks")
+                    if got != want:
+                        findings.append(("lifetime|emit-call-count|" + ("dead-weak" if c["weaks"] is None else "live"), f"callback of connection {i} called {got}x, expected {want}x"))
+            elif k == "killweak":
+                if not conns:
+                    continue
+                c = conns[st[1] % len(conns)]
+                if not c["weaks"]:
+                    continue
+                refs = [weakref.ref(w) for w in c["weaks"]]
+                ws = c["weaks"]
+                for o in conns:
+                    if o["weaks"] is ws:
+                        o["weaks"] = None
+                        o["live"] = False
+                del ws[:]
+                del ws
+                cnt("weak_arg_refcount_only_checks", len(refs))
+                if any(r() is not None for r in refs):
+                    findings.append(("liveness|weak-arg-not-freed-by-refcount", "a cycle-free weak argument survived the drop of its last outside reference (gc disabled)"))
+                    gc.collect()
+                # does the dead connection release its callback?  (observation only: not part of the statement)
+                cbref = weakref.ref(c["counter"])
+                users = [o for o in conns if o["counter"] is c["counter"] and o["live"]]
+                if not users:
+                    ctr = c["counter"]
+                    had_weak = True
+                    conns[:] = [o for o in conns if o["counter"] is not ctr]
+                    o = c = ctr = None
+                    cnt("dead_weak_connection_callback_released" if cbref() is None else f"dead_weak_connection_callback_retained:{kind}")
+        # ---- the sender's last outside reference goes
+        live = [c for c in conns if c["live"]]
+        if any(LT_SHAPES[c["shape"]][0] for c in live):
+            shape = "live-weak-args-connection"
+        elif had_weak or any(LT_SHAPES[c["shape"]][0] for c in conns):
+            shape = "only-removed-weak-args-connections"
+        elif live:
+            shape = "live-connections-without-weak-args"
+        elif conns or "connect" in [st[0] for st in desc["steps"]]:
+            shape = "only-removed-connections"
+        else:
+            shape = "never-connected"
+        wr = weakref.ref(sender)
+        del sender
+        cnt("sender_lifetime_refcount_only_checks")
+        cnt("sender_lifetime_refcount_only_checks:" + shape)
+        for c in live:
+            cnt("sender_lifetime_conn_shape:" + c["shape"])
+        if wr() is not None:
+            gc.collect()
+            if wr() is None:
+                findings.append((f"liveness|sender-freed-only-by-cycle-collector|{shape}", "sender (cycle-free, callbacks do not refer to it) survived the drop of its last reference with gc disabled; gc.collect() then freed it: the signal machinery made a reference cycle through the sender"))
+            else:
+                findings.append((f"liveness|sender-kept-alive-after-gc|{shape}", "sender still alive after last reference dropped and gc.collect()"))
+        del conns, live
+    finally:
+        if sg is None:
+            if saved is None:
+                reg.pop(cls, None)
+            else:
+                reg[cls] = saved
+        if was_enabled:
+            gc.enable()
+    return findings, counts
+
+
+def lt_shrink(desc, sig):
+    cur = desc
+    i = len(cur["steps"]) - 1
+    while i >= 0:
+        cand = dict(cur, steps=cur["steps"][:i] + cur["steps"][i + 1 :])
+        try:
+            if any(f[0] == sig for f in lifetime_case(cand)[0]):
+                cur = cand
+        except Exception:  # noqa: BLE001
+            pass
+        i -= 1
+    return cur
+
+
+def judge_lifetime(ctx, desc, label=None):
+    try:
+        findings, counts = lifetime_case(desc)
+    except Exception as e:  # noqa: BLE001
+        import traceback
+
+        ctx.violation(f"C14|lifetime|harness-or-urwid-exception|{type(e).__name__}", f"{type(e).__name__}: {e}\n{traceback.format_exc(limit=8)}", {"lifetime": desc})
+        return
+    for k, v in counts.items():
+        ctx.count(k, v)
+    ctx.count("lifetime_cases")
+    ctx.case(signals_ref.canon({"lifetime": desc}))
+    seen = set()
+    for sig, msg in findings:
+        if sig in seen:
+            continue
+        seen.add(sig)
+        w = desc if ctx.replaying else lt_shrink(desc, sig)
+        ctx.violation("C14|" + sig, msg, {"lifetime": w})
+
+
+def run_lifetime(ctx, frac):
+    """controls first (is the sender kind cycle-free at all?), then the enumerated shapes, then random step lists"""
+    usable = []
+    for api, kinds in LT_KINDS.items():
+        for kind in kinds:
+            f, _ = lifetime_case({"api": api, "kind": kind, "steps": []})
+            if f:
+                ctx.count("lifetime_control_sender_not_cycle_free")
+                continue
+            ctx.count("lifetime_controls_ok")
+            usable.append((api, kind))
+    i = 0
+    for api, kind in usable:
+        for label, steps in lt_hist_cases():
+            i += 1
+            if ctx.mine(i):
+                judge_lifetime(ctx, {"api": api, "kind": kind, "steps": steps}, label)
+                ctx.count("lifetime_enumerated_cases")
+    ctx.sample({"lifetime": {"api": "module", "kind": "plain", "steps": [["connect", "a", "wu", "func"], ["emit", "a"]]}}, limit=5)
+    rng = ctx.subrng("lifetime")
+    n = 0
+    while usable and ctx.more(frac) and n < ctx.pick(4000, 60000):
+        n += 1
+        api, kind = rng.choice(usable)
+        judge_lifetime(ctx, {"api": api, "kind": kind, "steps": lt_rand_steps(rng)})
+        ctx.count("lifetime_random_cases")
+
+
+
+
 def run(ctx):
     setup()
+    run_lifetime(ctx, 0.08)
     idx = 0
     complete = {}
     plan = ctx.pick([(1, 2, 0), (2, 2, 0), (3, 1, 0)], [(1, 2, 0), (2, 2, 0), (3, 2, 0), (4, 1, 0), (4, 2, 2)])
@@ -943,5 +1288,7 @@ def run(ctx):
 
 def replay(ctx, wit):
     setup()
+    if "lifetime" in wit:
+        return judge_lifetime(ctx, wit["lifetime"])
     wit = {"header": wit["header"], "ops": wit["ops"]}
     return judge(ctx, wit)
